@@ -158,6 +158,20 @@ def oracle(ctx, case, a):
         exp = b"".join(expected_header(t) + bytes.fromhex(t[3]) for t in case["tags"])
         if exp.hex() != a["hex"]:
             ctx.fail("canonical", case, "octets differ from the standard's escapes")
+        # self-delimiting: a stream cut INSIDE its last tag must be refused (no misread of a
+        # partly present header or length field, no short data)
+        if case["tags"] and a["hex"] == exp.hex():
+            last = expected_header(case["tags"][-1]) + bytes.fromhex(case["tags"][-1][3])
+            head = exp[:len(exp) - len(last)]
+            cuts = set(range(1, min(len(last), 8))) | {len(last) - 1} - {0}
+            for k in sorted(c for c in cuts if 0 < c < len(last)):
+                pre = head + last[:k]
+                r = impl({"op": "dec", "hex": pre.hex()})
+                if r.get("r") == "ok":
+                    ctx.fail("prefix-accepted", {"op": "dec", "hex": pre.hex() if len(pre) < 200 else pre[-40:].hex(),
+                                                 "cut_inside_last_tag_at": k, "tags": case["tags"] if len(str(case["tags"])) < 300 else "(long)"},
+                             "a stream truncated inside a tag was accepted as %d tag(s)" % len(r["tags"]))
+                    break
     elif op == "dec":
         if a["r"] == "ok":
             back = impl({"op": "dec", "hex": a["re"]})
